@@ -13,9 +13,9 @@ import (
 
 func init() {
 	streams["BUILDER"] = streamBuilder
-	streamRules["BUILDER"] = "tx lists (ordinary txs with boundary lengths, blob txs with 1-3 blobs over a small namespace pool, share versions 0/1, sizes dense in refusals) x maxSquareSize x threshold: Build, Construct(kept), executable Spec layout, Deconstruct, ParseShares, TxShareRange/BlobShareRange for every index, WrappedPFBs; oracles for C01 C02 C03 C04 C06 C07 C12 C20; non-trivial = distinct case with >= 1 blob and (>= 1 refusal or >= 2 namespaces)"
+	streamRules["BUILDER"] = "tx lists (ordinary txs with boundary lengths, blob txs with 1-3 blobs over a small namespace pool, share versions 0/1, sizes dense in refusals) x maxSquareSize x threshold: Build, Construct(kept), executable Spec layout, Deconstruct, ParseShares, TxShareRange/BlobShareRange for every index, WrappedPFBs; oracles for C01 C02 C03 C04 C06 C07 C12 C20; non-trivial = distinct case with >= 1 blob and (>= 1 refusal or >= 2 namespaces) Added after the seeded rounds: structured payloads, look-alike namespaces, non-canonical and twin blob txs, duplicates, empty txs anywhere, thresholds 1 / 2^20 / 2^31-1, special sizes, many-blob txs on share boundaries, huge txs (2^20, 2^21 bytes), a 16385-share blob at max 256, 20000 txs, >1000 sequences (the last four with Go-side oracles only in the quick tier), probes with blobs NewBlob must refuse, Go-side greedy selection and side recomputed from the rules, predicted vs produced share counts."
 	streams["BHIST"] = streamBHist
-	streamRules["BHIST"] = "Builder histories over {AppendTx, AppendBlobTx (accepted/refused), Export, FindTxShareRange, FindBlobStartingIndex, BlobShareLength, GetWrappedPFB}: CurrentSize and accept flag after every op; oracles: estimate >= occupied shares, refusal iff reference estimate > max^2, refused append leaves the builder unchanged, Export never errs (C06); final export == export of a fresh builder fed the accepted appends (C14); non-trivial = distinct history with a refusal or an export between appends"
+	streamRules["BHIST"] = "Builder histories over {AppendTx, AppendBlobTx (accepted/refused), Export, FindTxShareRange, FindBlobStartingIndex, BlobShareLength, GetWrappedPFB}: CurrentSize and accept flag after every op; oracles: estimate >= occupied shares, refusal iff reference estimate > max^2, refused append leaves the builder unchanged, Export never errs (C06); final export == export of a fresh builder fed the accepted appends (C14); non-trivial = distinct history with a refusal or an export between appends Added: in-memory blob tx route, hand-built blob txs without blobs, every query compared with a fresh builder fed the accepted appends (C04, C12), final export vs the specified layout (C07), predicted vs produced share count of every accepted blob (C13)."
 }
 
 type genTx struct {
